@@ -1,6 +1,7 @@
 import LhasaV.Driver.OpsExtract
 import LhasaV.Lemmas.ExtractTree14
 import LhasaV.Lemmas.ExtractTreeOpt
+import LhasaV.Lemmas.ExtractTreeOw
 /-!
 op `xtree <opts> <root 0|1> <abs prefix hex> <entries> <archive hex>`: evaluates the HYPOTHESES of
 `Props.C06.run_tree_partial` on a generated archive and prints the tree its CONCLUSION promises.
@@ -96,6 +97,36 @@ def opTree2 : List String → Option String
             (fs0.cwd ++ [e.namePart], flatTreeOf fs0.now fs0.umask sel [e.namePart]))
           some s!"kind=flat hyp={b hyp} tree={listing items}"
       | some _, false => some "kind=flat-reloc hyp=0 tree="
+  | _ => none
+
+/-!
+op `xtree3 <opts> <root 0|1> <abs prefix hex> <answers hex> <pre> <entries> <archive hex>`: the overwrite-policy theorem of C06
+(`overwrite_policy`): hypotheses `OptsOk`, `WellFormed`, `PreDir` (via the sound `preDirB`), `OwAnswers` evaluated; prints the
+specification's verdict `abort=<0|1>` and the promised tree (archived object where the plan says written, else what was there).
+-/
+def opTree3 : List String → Option String
+  | ["xtree3", opts, root, absp, answers, pre, entries, hex] => do
+      let o ← parseOpts opts
+      let absp ← parseHex absp
+      let ans ← parseHex answers
+      let _arch ← parseHex hex
+      let es ← (if entries == "-" then some [] else (entries.splitOn ",").mapM parseEntry)
+      let fs0 : Fs.St := { root := root == "1", cwd := ["root".toUTF8.toList], absPrefix := absp.toList,
+                           ents := [(["root".toUTF8.toList], .dir 0o755 1000), (["outside".toUTF8.toList], .dir 0o755 1000),
+                                    (["outside".toUTF8.toList, "canary".toUTF8.toList], .file "canary".toUTF8.toList 0o644 1000)] }
+      let fs1 ← if pre == "-" then some fs0 else (pre.splitOn ",").foldlM addPre fs0
+      let b := fun (x : Bool) => if x then "1" else "0"
+      let optsOk := o.extractPath.isNone && o.usePath && o.filters.isEmpty
+      let hyp := optsOk && decide (WellFormed es) && preDirB fs1 es &&
+                 (if o.overwrite == .prompt then decide (OwAnswers ans.toList) else true)
+      let pl := owPlan fs1 o ans.toList es
+      let below := (fs1.ents.filter (fun x => fs1.cwd.isPrefixOf x.1 && x.1 != fs1.cwd)).map (fun x => x.1.drop fs1.cwd.length)
+      let paths := (es.map Entry.path ++ below).eraseDups
+      let items := paths.filterMap (fun p =>
+        (owTree fs1.now fs1.umask (oldAt fs1) pl.1 p).map (fun e => (fs1.cwd ++ p, e)))
+      let arr := items.toArray.qsort (fun a b => pathStr a.1 < pathStr b.1)
+      let tree := ";".intercalate (arr.toList.map (fun x => pathStr x.1 ++ "=" ++ entStr fs1.now x.2))
+      some s!"kind=ow hyp={b hyp} abort={b pl.2} tree={tree}"
   | _ => none
 
 end LhasaV.Driver
